@@ -890,6 +890,12 @@ func parseSPSSccExtension(r *bits.EBSPReader, ChromaFormatIDC,
 			if ChromaFormatIDC == 0 {
 				numComps = 1
 			}
+			if BitDepthLumaMinus8 > 8 || (numComps > 1 && BitDepthChromaMinus8 > 8) {
+				// BitDepth+8 is byte arithmetic: 248 would give 0-bit reads that never fail, so the loops below never end
+				r.SetError(fmt.Errorf("bit_depth_luma_minus8 %d or bit_depth_chroma_minus8 %d is larger than 8",
+					BitDepthLumaMinus8, BitDepthChromaMinus8))
+				return ext
+			}
 			ext.PalettePredictorInitializer = make([][]uint, numComps)
 			// Fill luma
 			for i := uint(0); i <= ext.NumPalettePredictorInitializersMinus1 && r.AccError() == nil; i++ {
